@@ -181,6 +181,30 @@ def allMsgs (G : Grammar) (start : Node) : List Msg :=
 def nexts (G : Grammar) (F : Nat) (start : Node) (h : List Msg) : List Msg :=
   (allMsgs G start).filter (isNext G F start h)
 
+/-! ### the documented limit on repetitions
+
+docs/Language.md: "Omitting `M` creates an infinite upper bound", and in a tip: "In Fandango, the number of
+repetitions is limited. Use the `--max-repetitions M` flag to change the limit."  `Repetition.max` reads an open
+upper bound (`*`, `+`, `{n,}`) as the grammar's cap (`open_max`, default `nodes.MAX_REPETITIONS`); generation and
+`visitRepetitionType` go through it, the parser only for `{n,}`.  The judged language keeps open bounds
+unbounded (as `Valid` of the E2 core and C05 do); `capG cap G` - every open bound replaced by the cap - is the
+language the visitor implements, used to state the deviation exactly (`C19_open_bound_is_cap`). -/
+
+mutual
+def capNode (cap : Nat) : Node → Node
+  | .term t => .term t
+  | .nt name s r => .nt name s r
+  | .alt id ns => .alt id (capNodes cap ns)
+  | .cat id ns => .cat id (capNodes cap ns)
+  | .rep id kind n min max => .rep id kind (capNode cap n) min (some (max.getD cap))
+def capNodes (cap : Nat) : List Node → List Node
+  | [] => []
+  | n :: ns => capNode cap n :: capNodes cap ns
+end
+
+def capG (cap : Nat) (G : Grammar) : Grammar :=
+  { rules := G.rules.map (fun p => (p.1, capNode cap p.2)) }
+
 /-! ### no left recursion (hypothesis of the exactness theorems), as a checkable certificate -/
 
 mutual
